@@ -40,6 +40,7 @@ class RuleManager(object):
   def read_rules(self):
     if not exists(self.rules_file):
       self.clear()
+      self.rules_last_read = 0.0
       return
 
     # Only read if the rules file has been modified
